@@ -19,7 +19,7 @@ def tasks(tier):
     ts = [Task('verifHarness_C13_enqueue', [0]), Task('verifHarness_C13_enqueue', [1])]
     ts += [Task('verifHarness_C13_stall', [k]) for k in (0, 1, 2)]
     ts += [Task('verifHarness_C14_read_failure', [busy]) for busy in (0, 1, 2, 3)]
-    ts += [Task('verifHarness_C13_failed_write', [cause, k, 0]) for cause in (0, 1, 2, 3, 4, 5, 6, 7) for k in (1, 2, 3)]
+    ts += [Task('verifHarness_C13_failed_write', [cause, k, 0]) for cause in (0, 1, 2, 3, 4, 5, 6, 7, 8) for k in (1, 2, 3)]
     ts += [Task('verifHarness_C13_failed_write', [cause, 1, 1]) for cause in (0, 1)]
     ts += [Task('verifHarness_C13_node_keeps_serving', [p]) for p in (0, 1)]
     for kind in (0, 1, 2):
@@ -41,7 +41,7 @@ def bounds(tier):
             'stall': 'channel A full, channel B at an arbitrary non-full level; two requests (to A then to B; except-B then except-A; two write-all): both consumed, A discards, B served',
             'node_level': 'ONE SCHEDULE: a real node over two custom links, the application not receiving events; a write to all links fails on link A (once / for good): two further writes to all links return and reach link B in order',
             'second_sentence': 'ONE SCHEDULE (goroutines run round-robin until each blocks, to quiescence): Channel.run with its reader blocked in the '
-                               'transport; the k-th write (k = 1..3) of a message or of a forwarded frame fails with a transport error (once, or for good from then on; reported with a zero or with the full byte count), or an item with an id outside the dialect '
+                               'transport; the k-th write (k = 1..3) of a message or of a forwarded frame fails with a transport error (once, or for good from then on; reported with a zero or with the full byte count; also forwarded frames whose message id the dialect does not know), or an item with an id outside the dialect '
                                'cannot be encoded; also with the transport behind a no-op-Close wrapper (custom / UDP broadcast endpoints: KNOWN FINDING); then a further valid write: the channel was closed and reported once, or still delivers'}
 
 
